@@ -204,6 +204,10 @@ ATTR_VARIANTS = [
     ('zero CDATA "0"', "zero", "xdefault"),
     ('fls CDATA #FIXED "false"', "fls", "xfixed"),
     ('amp CDATA "a&amp;b &lt;c&gt;"', "amp", "xdefault"),
+    ('amp2 CDATA "p&amp;#38;q"', "amp2", "xdefault"),
+    # (not #FIXED: libxml2 validates a fixed value against its stored, escaped text and rejects the correct output)
+    ('amp3 CDATA "&#38;amp;"', "amp3", "xdefault"),
+    ('amp4 CDATA "&#x26;z"', "amp4", "xdefault"),
     ("qt CDATA 'say \"hi\"'", "qt", "xdefault"),
     ('apo CDATA "it\'s"', "apo", "xdefault"),
     ('non CDATA "None"', "non", "xdefault"),
@@ -217,7 +221,7 @@ ATTR_VARIANTS = [
     ('kw (True|true|None) #FIXED "true"', "kw", "enumx"),
 ]
 # name -> (a value a document may give, or None for #FIXED; the value of an absent attribute)
-EDGE = {"em": ("", "x"), "emf": ("", None), "sp": (" ", ""), "zero": ("0", ""), "fls": ("false", None), "amp": ("a&b <c>", "&"),
+EDGE = {"em": ("", "x"), "emf": ("", None), "sp": (" ", ""), "zero": ("0", ""), "fls": ("false", None), "amp": ("a&b <c>", "&"), "amp2": ("p&#38;q", "&#38;"), "amp3": ("&amp;", None), "amp4": ("&z", "&amp;"),
         "qt": ('say "hi"', "'"), "apo": ("it's", "it's"), "non": ("None", "none"), "emt": ("0", "00")}
 ENUMX = {"st": ("off", "ON"), "pt": ("x-1", "x1"), "dot": (None, "a_b"), "cs": ("A", "a"), "num": ("2", "10"), "kw": (None, "true")}
 
@@ -506,25 +510,6 @@ def model_bounds(c):
     return _MODEL_BOUNDS[dtd]
 
 
-def amp_default_only(msg):
-    """the failure is exactly the one of finding C16-ampersand-in-default-kept-escaped: the attributes after the round
-    trip differ from the prescribed ones only in defaulted values, where every `&` came back as `&#38;`"""
-    import ast
-    import re
-
-    m = re.search(r": attributes after the round trip (\{.*\}), the DTD prescribes (\{.*\})\s*$", msg, re.S)
-    if not m:
-        return False
-    try:
-        got, exp = ast.literal_eval(m.group(1)), ast.literal_eval(m.group(2))
-    except (ValueError, SyntaxError):
-        return False
-    if set(got) != set(exp):
-        return False
-    diff = [k for k in exp if got[k] != exp[k]]
-    return bool(diff) and all("&" in exp[k] and got[k] == exp[k].replace("&", "&#38;") for k in diff)
-
-
 def covered_docs(a, msg):
     """a failure belongs to a listed finding only if it is the failure the finding describes:
     C16-any-drops-text         the re-serialised document lacks exactly the character data after a child inside an ANY element;
@@ -540,8 +525,6 @@ def covered_docs(a, msg):
     c = a["content"]
     if any_text_after_child(a, msg):
         return "C16-any-drops-text"
-    if amp_default_only(msg):
-        return "C16-ampersand-in-default-kept-escaped"
     names = G.dtd_names(c)
     dups = {n for n in names if names.count(n) > 1}
     if not dups:
@@ -608,8 +591,6 @@ def compare_e2e(m, i, a):
     names = G.dtd_names(a["content"])
     if "any" in (a.get("kinds") or {}).values() and i == ok("finding:C16-any-drops-text"):
         return True
-    if any("&" in EDGE.get(ATTR_VARIANTS[j][1], ("",))[0] for j in a.get("attrs", [])) and i == ok("finding:C16-ampersand-in-default-kept-escaped"):
-        return True  # only with an ATTLIST default that contains an ampersand, and only when the predicate recognised the failure
     return len(set(names)) != len(names) and i == ok("finding:C16-duplicate-name-sites")
 
 
@@ -877,16 +858,7 @@ def finding_any_text():
         g.close()
 
 
-def finding_amp_default():
-    """<!ATTLIST r amp CDATA "a&amp;b">: <r/> comes back as <r amp="a&amp;#38;b"/>"""
-    a = {"content": {"k": "seq", "o": "once", "c": [{"n": "a", "o": "opt"}]}, "words": [[], ["a"]],
-         "attrs": [i for i, v in enumerate(ATTR_VARIANTS) if v[1] == "amp"], "ns": None}
-    msgs = list(_oracle_docs_failures(a))
-    return (bool(msgs) and all(covered_docs(a, m) == "C16-ampersand-in-default-kept-escaped" for m in msgs), msgs[0] if msgs else "the default comes back unescaped now")
-
-
 FINDINGS = {
-    "C16-ampersand-in-default-kept-escaped": finding_amp_default,
     "C16-any-drops-text": finding_any_text,
     "C16-duplicate-name-sites": finding_dup,
 }
